@@ -4,11 +4,24 @@ all white cells are orthogonally connected, and no 2x2 block is of one colour; g
 
 Answer keys: is_black, row-major (h*w bools).
 Problem dict: {"height", "width", "problem": grid of 0 | 1 | 2}.
+
+Two enumerators: candidates() filters all 2^(h*w) colourings (boards up to 16 cells); search() assigns the cells one by one
+(along the shorter side) and gives up a branch as soon as a 2x2 block is of one colour, a given is contradicted, or a colour
+has two components of which one can no longer grow (no unassigned neighbour) - all of them consequences of the rules above;
+selftest() compares both on every board up to 16 cells.  readings() uses search() beyond 16 cells.
+
+Shape ("large", h, w): the clue-free board, and dense instances derived from rule-obeying grids G of the clue-free board
+(first / last / evenly spaced in enumeration order): all cells given, all minus every k-th, every k-th only, one given of
+the opposite colour (first, last, middle, corner, edge cell), the last row / last column / far corner only.
+Shape ("seeded", h, w): the same for boards whose clue-free enumeration is too slow (6x6 in the quick tier); the grids G
+are the answers of a lightly clued board (top row half black, half white) and of the module's published example.
 """
 
 from . import base
 
 _CAND = {}
+_FREE = {}
+SMALL = 16  # boards up to this many cells are enumerated by candidates()
 
 
 def candidates(h, w):
@@ -28,23 +41,190 @@ def candidates(h, w):
     return out
 
 
+def _search_tall(h, w, fixed):
+    """All is_black bit masks (bit y*w+x) of the h x w board obeying the rules, with fixed[k] in (None, False, True)."""
+    n = h * w
+    full = (1 << n) - 1
+    notl = full & ~sum(1 << (y * w) for y in range(h))
+    notr = full & ~sum(1 << (y * w + w - 1) for y in range(h))
+    # cells that still have an unassigned neighbour once cells 0..i are assigned
+    opn = []
+    for i in range(n):
+        m = 0
+        for k in range(max(0, i - w + 1), i + 1):
+            if k + w < n:
+                m |= 1 << k
+        if i % w < w - 1:
+            m |= 1 << i
+        opn.append(m)
+    sq = [None] * n
+    for y in range(1, h):
+        for x in range(1, w):
+            i = y * w + x
+            sq[i] = (1 << i) | (1 << (i - 1)) | (1 << (i - w)) | (1 << (i - w - 1))
+    earlier = [0] * n
+    for i in range(n):
+        if i >= w:
+            earlier[i] |= 1 << (i - w)
+        if i % w:
+            earlier[i] |= 1 << (i - 1)
+
+    def flood(seed, mask):
+        while True:
+            nxt = (seed | ((seed << 1) & notl) | ((seed >> 1) & notr) | (seed << w) | (seed >> w)) & mask
+            if nxt == seed:
+                return seed
+            seed = nxt
+
+    def may_connect(cells, still_open):
+        """False when `cells` has two or more components and one of them has no unassigned neighbour."""
+        if cells == 0:
+            return True
+        if flood(cells & -cells, cells) == cells:
+            return True
+        rest = cells
+        while rest:
+            comp = flood(rest & -rest, rest)
+            if not comp & still_open:
+                return False
+            rest &= ~comp
+        return True
+
+    out = []
+
+    def rec(i, black):
+        if i == n:
+            out.append(black)
+            return
+        done = (1 << (i + 1)) - 1
+        for v in (0, 1):
+            if fixed[i] is not None and fixed[i] != bool(v):
+                continue
+            nb = black | (v << i)
+            q = sq[i]
+            if q is not None:
+                t = nb & q
+                if t == q or t == 0:
+                    continue
+            same = nb if v else done & ~nb
+            other = done & ~same
+            if i == n - 1:
+                if not may_connect(same, 0) or not may_connect(other, 0):
+                    continue
+            else:
+                # the colour of cell i can only have got worse if cell i starts a new component; the other colour only if
+                # an earlier neighbour of cell i has it (that neighbour has just lost an unassigned neighbour)
+                if not same & earlier[i] and not may_connect(same, opn[i]):
+                    continue
+                if other & earlier[i] and not may_connect(other, opn[i]):
+                    continue
+            rec(i + 1, nb)
+
+    rec(0, 0)
+    return out
+
+
+def search(h, w, prob=None):
+    """All rule-obeying is_black tuples (row-major) of the board with givens prob (None: no givens), by pruned search."""
+    fixed = [None] * (h * w)
+    if prob is not None:
+        for y in range(h):
+            for x in range(w):
+                if prob[y][x] != 0:
+                    fixed[y * w + x] = prob[y][x] == 2
+    # the search runs over an internal board that is at least as tall as wide, with the givens rather near its first rows
+    # (a given prunes from its row on); (Y, X) of the internal board is cell at(Y, X) of the real one
+    ih, iw = (h, w) if w <= h else (w, h)
+    at = (lambda Y, X: (Y, X)) if w <= h else (lambda Y, X: (X, Y))
+    rows = [sum(1 for X in range(iw) if fixed[at(Y, X)[0] * w + at(Y, X)[1]] is not None) for Y in range(ih)]
+    if sum(c * (2 * Y - (ih - 1)) for Y, c in enumerate(rows)) > 0:  # givens mostly in the far half: search from there
+        at = (lambda f: (lambda Y, X: f(ih - 1 - Y, X)))(at)
+    real = [at(Y, X)[0] * w + at(Y, X)[1] for Y in range(ih) for X in range(iw)]
+    pos = [0] * (h * w)
+    for k, r in enumerate(real):
+        pos[r] = k
+    return [tuple(bool(m >> pos[r] & 1) for r in range(h * w)) for m in _search_tall(ih, iw, [fixed[r] for r in real])]
+
+
+def free(h, w):
+    if (h, w) not in _FREE:
+        _FREE[(h, w)] = search(h, w)
+    return _FREE[(h, w)]
+
+
+def pick(seq, k):
+    """k evenly spaced elements of seq, first and last included (all of seq when it has at most k elements)."""
+    if len(seq) <= k:
+        return list(seq)
+    return [seq[(len(seq) - 1) * j // (k - 1)] for j in range(k)]
+
+
 class YinYang(base.Rule):
     name = "yinyang"
 
     def shapes(self, tier):
         s = [(1, 1), (1, 2), (2, 1), (1, 3), (3, 1), (2, 2), (2, 3), (3, 2), (3, 3)]
+        large = [("large", 5, 5), ("large", 6, 5), ("large", 5, 6), ("seeded", 6, 6), ("large", 2, 10), ("large", 10, 2), ("large", 1, 12), ("large", 12, 1)]
         if tier == "quick":
             # on boards up to 3x3 the 2x2 rules alone already force both colours to be connected; the smallest boards where
             # connectivity bites are 3x4 / 4x3 with >= 2 givens, reached under the quick cap by one-colour alphabets
-            return s + [(3, 4), (4, 3), (3, 4, 1), (4, 3, 2)]
-        return s + [(1, 4), (4, 1), (2, 4), (4, 2), (3, 4), (4, 3), (4, 4)]
+            return s + [(3, 4), (4, 3), (3, 4, 1), (4, 3, 2)] + large
+        large += [("large", 6, 6), ("large", 3, 8), ("large", 8, 3), ("large", 4, 8), ("large", 8, 4)]
+        large += [("large", 1, 15), ("large", 15, 1), ("seeded", 6, 7), ("seeded", 7, 6)]
+        return s + [(1, 4), (4, 1), (2, 4), (4, 2), (3, 4), (4, 3), (4, 4)] + large
 
     def instances(self, shape, cap):
-        """shape (h, w): cap rule over 0 | 1 2; shape (h, w, c): cap rule over 0 | c (givens of one colour only)."""
+        """shape (h, w): cap rule over 0 | 1 2; shape (h, w, c): cap rule over 0 | c (givens of one colour only);
+        shape ("large" | "seeded", h, w): see the module doc (cap <= 1000 selects the short quick-tier list)."""
+        if shape[0] in ("large", "seeded"):
+            for cells in self.large_layouts(shape[0], shape[1], shape[2], cap <= 1000):
+                yield {"height": shape[1], "width": shape[2], "problem": base.grid(cells, shape[1], shape[2])}
+            return
         h, w = shape[0], shape[1]
         lays, k = base.layouts(h * w, 0, [1, 2] if len(shape) == 2 else [shape[2]], cap)
         for cells in lays:
             yield {"height": h, "width": w, "problem": base.grid(cells, h, w)}
+
+    def large_layouts(self, kind, h, w, quick):
+        n = h * w
+        out = []
+        if kind == "large":
+            out.append([0] * n)
+            sols = free(h, w)
+        else:
+            top = [[2 if x < w // 2 else 1 for x in range(w)]] + [[0] * w for _ in range(h - 1)]
+            sols = search(h, w, top)
+            ex = self.example()[0]
+            if (ex["height"], ex["width"]) == (h, w):
+                sols = sols + search(h, w, ex["problem"])
+            # a board whose givens contradict each other only through connectivity: both border rows split the other way round
+            out.append(top[0] + [0] * (n - 2 * w) + [1 if x < w // 2 else 2 for x in range(w)])
+        spots = [n - 1, w - 1, n // 2, 0, n - w, (h // 2) * w + w - 1]
+        gs = pick(sols, 3)
+        for gi, g in enumerate(gs):
+            full = [2 if b else 1 for b in g]
+            var = {"full": full}
+            for k in (2, 3, 4):
+                var["minus%d" % k] = [0 if i % k == k - 1 else c for i, c in enumerate(full)]  # minus every k-th given
+            var["third"] = [c if i % 3 == gi % 3 else 0 for i, c in enumerate(full)]  # every third given only
+            var["lastrow"] = [c if i >= n - w else 0 for i, c in enumerate(full)]
+            var["lastcol"] = [c if i % w == w - 1 else 0 for i, c in enumerate(full)]
+            var["corner"] = [c if i == n - 1 else 0 for i, c in enumerate(full)]
+            var["lastrowcol"] = [c if (i >= n - w or i % w == w - 1) else 0 for i, c in enumerate(full)]
+            thin = var["minus2"]
+            for j, q in enumerate(spots):  # one given of the opposite colour: in the full set, and in the thinned set
+                var["flip%d" % j] = [(3 - c) if i == q else c for i, c in enumerate(full)]
+                var["thinflip%d" % j] = [(3 - full[i]) if i == q else c for i, c in enumerate(thin)]
+            if quick:  # every kind of variant once, spread over the grids G
+                names = (["full", "thinflip0", "lastcol"], ["minus2", "lastrow", "flip2"], ["minus3", "thinflip1", "third"])[gi][: 3 if gi == 0 else 2]
+            else:
+                names = [k for j, k in enumerate(var) if not k.startswith(("flip", "thinflip")) or j % len(gs) == gi]
+            for k in names:
+                if kind == "seeded" and k == "corner":  # as slow as the clue-free board
+                    continue
+                if var[k] not in out:
+                    out.append(var[k])
+        return out
 
     def call(self, p):
         from cspuz.puzzle import yinyang
@@ -55,6 +235,8 @@ class YinYang(base.Rule):
     def readings(self, p):
         h, w = p["height"], p["width"]
         prob = p["problem"]
+        if h * w > SMALL:
+            return [search(h, w, prob) if any(c != 0 for row in prob for c in row) else free(h, w)]
         given = [(y * w + x, prob[y][x] == 2) for y in range(h) for x in range(w) if prob[y][x] != 0]
         out = [col for col in candidates(h, w) if all(col[k] == v for k, v in given)]
         return [out]
@@ -64,6 +246,32 @@ class YinYang(base.Rule):
             [0, 0, 0, 2, 0, 1], [0, 1, 1, 0, 0, 0], [2, 0, 1, 0, 0, 0], [0, 0, 0, 0, 2, 0], [0, 0, 0, 0, 0, 2], [0, 0, 2, 0, 0, 0],
         ]
         return {"height": 6, "width": 6, "problem": prob}, "cspuz/puzzle/yinyang.py _main() (pzv.jp/p.html?yinyang/6/6/0j40j0060220)"
+
+
+def selftest():
+    """search() against the filter of all colourings: every board up to 16 cells, clue-free and with a systematic family of
+    givens (every rule-obeying grid thinned to every third cell, with and without one given flipped; contradictory pairs)."""
+    boards = [(h, w) for h in range(1, 17) for w in range(1, 17) if h * w <= SMALL]
+    checked = 0
+    for h, w in boards:
+        n = h * w
+        cand = candidates(h, w)
+        assert sorted(search(h, w)) == sorted(cand), (h, w)
+        probs = []
+        for gi, g in enumerate(pick(cand, 12)):
+            cells = [(2 if b else 1) if i % 3 == gi % 3 else 0 for i, b in enumerate(g)]
+            probs.append(cells)
+            for q in (0, n - 1, n // 2):
+                probs.append([(3 - (2 if g[i] else 1)) if i == q else c for i, c in enumerate(cells)])
+        for a in range(n):
+            probs.append([2 if i in (a, n - 1 - a) else (1 if i == (a + n // 2) % n else 0) for i in range(n)])
+        for cells in probs:
+            prob = base.grid(cells, h, w)
+            given = [(k, c == 2) for k, c in enumerate(cells) if c != 0]
+            want = [col for col in cand if all(col[k] == v for k, v in given)]
+            assert sorted(search(h, w, prob)) == sorted(want), (h, w, cells)
+            checked += 1
+    return checked
 
 
 RULE = YinYang()
